@@ -406,4 +406,55 @@ theorem eqNeCond_sound {S ρ cond ce expr ca a cb b vc ve}
             · exact tt.2
           · simp at hp
 
+theorem dblNot_eval {S ρ e x v} (h : e.dblNot = some x) (g : Good S e) (he : eval S ρ e = some v) :
+    Good S x ∧ e.isBoolVal = true ∧ ∃ w, eval S ρ x = some w ∧ (v ≠ 0 ↔ w ≠ 0) := by
+  obtain ⟨a, a', rfl⟩ := dblNot_spec h
+  obtain ⟨w1, hw1, hv⟩ := eval_lnot he
+  obtain ⟨w, hw, hv1⟩ := eval_lnot hw1
+  refine ⟨g.un.un, by simp [Expr.isBoolVal], w, hw, ?_⟩
+  subst hv; subst hv1
+  by_cases hw0 : w = 0 <;> simp [b2i, hw0]
+
+theorem sameConst_sound {S ρ e1 e2 v1 v2} (h : sameConst e1 e2 = true) (g1 : annOK S e1 = true) (g2 : annOK S e2 = true)
+    (h1 : eval S ρ e1 = some v1) (h2 : eval S ρ e2 = some v2) : v1 = v2 ∧ tyOf S e1 = tyOf S e2 := by
+  unfold sameConst at h
+  split at h
+  · rename_i a1 s1 a2 s2
+    simp only [Bool.and_eq_true] at h
+    obtain ⟨hvt, hk⟩ := h
+    simp only [annOK, Bool.and_eq_true, beq_iff_eq, decide_eq_true_eq] at g1 g2
+    obtain ⟨⟨⟨⟨⟨r1, vt1⟩, k1⟩, f1⟩, _⟩, _⟩ := g1
+    obtain ⟨⟨⟨⟨⟨r2, vt2⟩, k2⟩, f2⟩, _⟩, _⟩ := g2
+    rw [vt1, vt2] at hvt
+    simp only [Bool.and_eq_true, beq_iff_eq] at hvt
+    have hty : S.lty s1 = S.lty s2 := by
+      apply toVT_inj
+      cases h1 : toVT (S.lty s1); cases h2 : toVT (S.lty s2)
+      rw [h1, h2] at hvt
+      simp at hvt ⊢
+      exact hvt
+    simp only [equalKnown, Expr.ann, f1, f2, k1, k2, beq_iff_eq] at hk
+    simp only [eval, Option.some.injEq] at h1 h2
+    rw [wrap_of_inRange _ _ r1] at h1
+    rw [wrap_of_inRange _ _ r2] at h2
+    subst h1; subst h2
+    refine ⟨?_, by simp [tyOf, hty]⟩
+    exact toI64_inj (S.lty s2) _ _ (hty ▸ r1) r2 hk
+  · simp at h
+
+theorem flipPick_spec {e1 e2 a b c d} (h : flipPick e1 e2 = some (a, b, c, d)) :
+    ∃ a1 o1 a2 o2, e1 = .bin a1 o1 a c ∧ e2 = .bin a2 o2 d b ∧ flipPair o1 o2 = true := by
+  unfold flipPick at h
+  split at h
+  · split at h
+    · simp at h; obtain ⟨rfl, rfl, rfl, rfl⟩ := h; exact ⟨_, _, _, _, rfl, rfl, by assumption⟩
+    · simp at h
+  · simp at h
+
+theorem flip_val {o1 o2 : BinOp} {ta tb : Ty} {x y : Int} (hne : o1 ≠ o2) (hf : flipPair o1 o2 = true) :
+    evalBin o1 ta tb x y = evalBin o2 tb ta y x ∧ binTy o1 ta tb = binTy o2 tb ta := by
+  cases o1 <;> cases o2 <;> simp [flipPair] at hf hne <;>
+    simp [evalBin, BinOp.isShift, uac_comm tb ta, binTy, BinOp.isCmp, BinOp.isLogic] <;> congr 1 <;> simp <;>
+    constructor <;> intro h <;> omega
+
 end Cppcheck.CondExpr
